@@ -115,6 +115,11 @@ func suiteSessions(e *vh.Env) {
 			if rng.Chance(8) {
 				st.client = append(st.client, sessName+"=bogus")
 			}
+			if rng.Chance(10) {
+				// a second cookie with the session cookie's name and no value (browsers send same-named cookies of
+				// different paths or domains side by side); after the shuffle it may come before the real one
+				st.client = append(st.client, sessName+"=")
+			}
 			if !simple {
 				st.host = rng.Pick([]string{"app.example", "sub.app.example", "other.test"})
 				st.path = rng.Pick([]string{"/", "/a", "/a/b", "/c"})
